@@ -90,6 +90,15 @@ def gen_case(rng):
             call["n_jobs"] = rng.choice([2, 3, 4])
         kills = [{"call": 1, "when": "during", "kind": rng.choice(["label:receiving_call", "label:idle", "pread", "sem_acq"]),
                   "nth": rng.choice([1, 1, 2, 3, 4]), "delay": 0.0, "code": -9}]
+    if rng.random() < 0.07 and len(calls) >= 2:
+        # focus: the second call enlarges the executor (same worker environment) and one of the workers spawned for it
+        # dies at once, before the resize has seen it alive
+        calls[0]["n_jobs"] = rng.choice([3, 3, 4]); calls[1]["n_jobs"] = calls[0]["n_jobs"] + rng.choice([1, 1, 2])
+        calls[1]["gap_before"] = 0.0
+        for call in calls[2:]:
+            call["n_jobs"] = rng.choice([3, 4, 5])
+        kills = [{"call": 1, "when": "during", "kind": rng.choice(["any", "any", "acq", "sem_acq"]), "nth": rng.choice([1, 1, 2, 3]), "delay": 0.0,
+                  "code": rng.choice([-9, -9, -11, 3])}]
     pending_gen = False
     if rng.random() < 0.08 and len(calls) >= 2:
         # focus: the first call returns a generator that is not consumed yet when the second call, with another n_jobs
